@@ -16,6 +16,7 @@ EXPLANATION = (
     "the clearing helper visits every sub-pattern (prefix, spread, suffix) - otherwise stale bindings turn into equality constraints. Not decided: the "
     "visited state sequence and payload values (runtime)."
     ' (R5) the FSM arm loop is left by `break` only after a transition was applied (flag set in the same block or break guarded by the flag).'
+    " (R6) each FSM arm is tried against its own scratch environment; (R7) the set the start state and transition targets are validated against is built from the implementation's arms and nothing else."
 )
 
 
